@@ -21,10 +21,17 @@ def parse_reports(stderr):
     return payload, other
 
 
-def run_one(binp, prop, seed, iters, supp):
+def run_one(binp, prop, seed, iters, supp, watchdog=150):
+    """one freerun process.  A process that does not finish within the wall-clock watchdog is killed and counted as
+    inconclusive (real threads: a hang here is never a verdict, lost wake-ups are decided by the detsched legs only)."""
     env = dict(os.environ)
     env["TSAN_OPTIONS"] = "suppressions=%s:halt_on_error=0:exitcode=0:second_deadlock_stack=0:report_signal_unsafe=0:history_size=3" % supp
-    p = subprocess.run([binp, "--prop", prop, "--seed", str(seed), "--iters", str(iters)], stdout=subprocess.PIPE, stderr=subprocess.PIPE, text=True, env=env, timeout=1500)
+    try:
+        p = subprocess.run([binp, "--prop", prop, "--seed", str(seed), "--iters", str(iters)], stdout=subprocess.PIPE, stderr=subprocess.PIPE, text=True, env=env, timeout=watchdog)
+    except subprocess.TimeoutExpired as e:
+        err = e.stderr if isinstance(e.stderr, str) else (e.stderr or b"").decode("utf-8", "replace")
+        return {"evaluations": 0, "nontrivial_hashes": [], "classes": {}, "sums": {}, "samples": [], "inconclusive": 1, "wall_s": watchdog,
+                "inconclusive_kinds": {"FREERUN-WATCHDOG": 1}, "inconclusive_samples": ["tsan prop=%s seed=%d iters=%d: no result after %d s (killed)" % (prop, seed, iters, watchdog)]}, err, -9
     d = None
     for line in reversed(p.stdout.strip().splitlines()):
         if line.startswith("{"):
@@ -46,7 +53,7 @@ def run(pid, leg, seed, tier, out, ctx):
     import concurrent.futures as cf
     seeds = [ctx["h64"](seed, pid, leg["name"], i) % (1 << 31) for i in range(leg.get("procs", 4))]
     with cf.ThreadPoolExecutor(len(seeds)) as ex:
-        results = list(ex.map(lambda s: (s,) + run_one(binp, prop, s, leg.get("iters", 200), supp), seeds))
+        results = list(ex.map(lambda s: (s,) + run_one(binp, prop, s, leg.get("iters", 200), supp, leg.get("watchdog", 120 if tier == "quick" else 600)), seeds))
     for s, d, err, rc in results:
         if d is None:
             out["driver_errors"].append({"leg": leg["name"], "rc": rc, "stderr": err[-800:]})
@@ -58,7 +65,7 @@ def run(pid, leg, seed, tier, out, ctx):
             payload.append("value mismatch: " + d.get("mismatch_detail", ""))
         if payload:
             # confirmation: the same (prop, seed) must show a payload race again
-            d2, err2, _ = run_one(binp, prop, s, leg.get("iters", 200), supp)
+            d2, err2, _ = run_one(binp, prop, s, leg.get("iters", 200), supp, leg.get("watchdog", 120 if tier == "quick" else 600))
             p2, _ = parse_reports(err2)
             if p2 or (d2 and d2.get("value_mismatches", 0)):
                 os.makedirs(ctx["REPLAYS"], exist_ok=True)
